@@ -652,6 +652,43 @@ symrandom = SymRandom()
 symnp = SymNumpy()
 
 
+class RecordingNumpy(types.ModuleType):
+    """Concrete-mode proxy for `np`: real numpy, but selected calls are reported to hooks."""
+
+    def __init__(self, hooks):
+        super().__init__("recnp")
+        self._hooks = hooks
+
+    def __getattr__(self, name):
+        return getattr(_np, name)
+
+    def exp(self, x, *a, **k):
+        h = self._hooks.get("exp")
+        if h is not None:
+            for v in _np.atleast_1d(_np.asarray(x, dtype=float)).ravel():
+                h(float(v))
+        return _np.exp(x, *a, **k)
+
+    def cumsum(self, x, *a, **k):
+        h = self._hooks.get("cumsum")
+        if h is not None:
+            h(_np.array(x, dtype=float))
+        return _np.cumsum(x, *a, **k)
+
+
+@contextlib.contextmanager
+def recording(modules, hooks):
+    rec = RecordingNumpy(hooks)
+    saved = [(m, m.np) for m in modules]
+    try:
+        for m in modules:
+            m.np = rec
+        yield
+    finally:
+        for m, old in saved:
+            m.np = old
+
+
 class _NullLogger:
     def __getattr__(self, name):
         def f(*a, **k):
